@@ -73,13 +73,115 @@ def classify(e, diffs_a, diffs_b):
   return 'cyclic-through-lookup' if bad and bad <= tainted else 'incremental-differs-from-scratch'
 
 
-def oracle(e):
+SORT_HELPER = 'stale:sort-helper-survives-column-removal'
+
+
+def stale_sort_helper(e, a, b):
+  """True if every differing column sits on/behind a SortedLookupMapColumn whose sort column no longer exists
+  (table.py _get_sorted_lookup_map reuses the cached helper; creating it anew raises KeyError)."""
+  def bound_columns(helper):
+    """Column objects captured by sort_key.make_sort_key when the helper was created."""
+    out = []
+    fn = getattr(getattr(helper, '_sort_key', None), '__init__', None)
+    for cell in (getattr(fn, '__closure__', None) or ()):
+      try:
+        v = cell.cell_contents
+      except ValueError:
+        continue
+      if isinstance(v, list) and v and all(isinstance(x, tuple) and len(x) == 2 for x in v):
+        out.extend(x[0] for x in v if hasattr(x[0], 'get_cell_value'))
+    return out
+  stale = set()
+  for t in e.tables.values():
+    for col in getattr(t, '_special_cols', {}).values():
+      ids = getattr(col, '_sort_col_ids', None)
+      if not ids:
+        continue
+      if any(not t.has_column(c) for c in ids) or \
+         any(t.all_columns.get(c.col_id) is not c for c in bound_columns(col)):
+        stale.add(col.node)
+  if not stale:
+    return False
+  tainted = set(stale)
+  changed = True
+  while changed:
+    changed = False
+    for ed in e.dep_graph._all_edges:
+      if ed.in_node in tainted and ed.out_node not in tainted:
+        tainted.add(ed.out_node)
+        changed = True
+  bad = set()
+  for t in a:
+    if t not in b or a[t]['ids'] != b[t]['ids']:
+      return False
+    for c in a[t]['cols']:
+      if a[t]['cols'][c] != b[t]['cols'].get(c):
+        bad.add(depend.Node(t, c))
+  return bool(bad) and bad <= tainted
+
+
+LOOKUP_SCHEMA = 'stale-error:lookup-column-schema-change'
+
+
+def lookup_schema_change(e, a, b, bundle):
+  """True if every differing cell holds an error from scratch (and an error / nothing incrementally) and belongs to
+  a column whose formula does a lookup (lookupRecords/lookupOne/PREVIOUS/NEXT/RANK) that names a column the last
+  bundle added, removed, retyped or converted: the dependence of a lookup on the EXISTENCE and TYPE of its key and
+  sort columns is not recorded (table.py lookup_records converts the key by the column's type and raises before
+  any _use_node), so such a cell is not re-evaluated and keeps its previous error / empty value."""
+  import re
+  changed = set()
+  for act in bundle or ():
+    if act[0] in ('RemoveColumn', 'AddColumn'):
+      changed.add(act[2])
+    elif act[0] == 'ModifyColumn' and ('type' in act[3] or 'isFormula' in act[3]):
+      changed.add(act[2])
+    elif act[0] == 'RenameColumn':
+      changed.update([act[2], act[3]])
+  if not changed:
+    return False
+  meta = histgen.Meta(e)
+  formulas = {}
+  for c in meta.cols.values():
+    t = meta.tables.get(c['parentId'])
+    if t is not None:
+      formulas[(t['tableId'], c['colId'])] = c['formula'] or ''
+  found = False
+  for t in a:
+    if t not in b or a[t]['ids'] != b[t]['ids']:
+      return False
+    for c, vals in a[t]['cols'].items():
+      other = b[t]['cols'].get(c)
+      if vals == other:
+        continue
+      found = True
+      f = formulas.get((t, c), '')
+      if not re.search(r'lookupRecords|lookupOne|PREVIOUS|NEXT|RANK', f):
+        return False
+      if not any(re.search(r'(?<![A-Za-z0-9_])%s(?![A-Za-z0-9_])' % re.escape(x), f) for x in changed):
+        return False
+      if not isinstance(other, list) or len(other) != len(vals):
+        return False
+      for x, y in zip(vals, other):
+        if x != y:
+          is_err = lambda v: isinstance(v, list) and len(v) >= 1 and v[0] == 'E'
+          if not is_err(y) or not (is_err(x) or x in (None, '', 0, ['L'])):
+            return False
+  return found
+
+
+def oracle(e, bundle=None):
   """(kind, what) if incremental values differ from scratch recalculation, else None."""
   f = histrun.scratch_values(e)
   a, b = G.snapshot(e), G.snapshot(f)
   if a == b:
     return None
-  return classify(e, a, b), '; '.join(G.diff_snapshots(a, b))
+  kind = classify(e, a, b)
+  if kind == 'incremental-differs-from-scratch' and stale_sort_helper(e, a, b):
+    kind = SORT_HELPER
+  if kind == 'incremental-differs-from-scratch' and lookup_schema_change(e, a, b, bundle):
+    kind = LOOKUP_SCHEMA
+  return kind, '; '.join(G.diff_snapshots(a, b))
 
 
 FLATTEN = 'reflist-flatten-id-read'
@@ -156,7 +258,7 @@ def replay(ctx, w):
   except Exception:
     G.clean(e)
   try:
-    r = oracle(e)
+    r = oracle(e, w['bundle'])
   except Exception as ex:
     return 'scratch recalculation raises %r' % (ex,)
   return None if r is None else '%s: %s' % r
@@ -170,7 +272,7 @@ def shrink(history, bundle):
         G.apply(e, copy.deepcopy(bs[-1]))
       except Exception:
         G.clean(e)
-      return oracle(e) is not None
+      return oracle(e, bs[-1]) is not None
     except Exception:
       return False
   small = histgen.shrink_list(history + [bundle], fails, max_steps=120)
@@ -259,7 +361,7 @@ def exploit(ctx, e, m, problem, history):
     except Exception:
       G.clean(e)
       continue
-    r = oracle(e)
+    r = oracle(e, b)
     if r is not None:
       report(ctx, e, r, history, b)
       return True
@@ -341,7 +443,7 @@ def oracle_history(ctx, seed, nb, tag):
     for a in bundle:
       ctx.bump('op:' + a[0])
     try:
-      res = oracle(e)
+      res = oracle(e, bundle)
     except Exception as ex:
       ctx.violation('scratch-raises', 'scratch recalculation raised %r' % (ex,),
                     {'history': copy.deepcopy(history), 'bundle': copy.deepcopy(bundle)})
@@ -387,7 +489,11 @@ def search(ctx):
             G.apply(e2, copy.deepcopy(b))
           except Exception:
             G.clean(e2)
-          kind = diagnose(h, b, G.snapshot(e2), G.snapshot(histrun.scratch_values(e2))) or kind
+          r2 = oracle(e2, b)
+          if r2 is not None:
+            kind = r2[0]
+          if kind == 'incremental-differs-from-scratch':
+            kind = diagnose(h, b, G.snapshot(e2), G.snapshot(histrun.scratch_values(e2))) or kind
         except Exception:
           pass
       ctx.violation(kind, it['what'], it['replay'])
@@ -413,7 +519,7 @@ def search(ctx):
     for b in hist:
       c05lib.apply_or_clean(e, copy.deepcopy(b))
       try:
-        res = oracle(e)
+        res = oracle(e, b)
       except Exception as ex:
         ctx.violation('scratch-raises', 'scratch recalculation raised %r' % (ex,),
                       {'history': copy.deepcopy(done), 'bundle': copy.deepcopy(b)})
@@ -432,7 +538,7 @@ def search(ctx):
     done = []
     for b in hist:
       c05lib.apply_or_clean(e, copy.deepcopy(b))
-      res = oracle(e)
+      res = oracle(e, b)
       ctx.count(('cyclic', i, len(done)), nontrivial=True, kind='oracle:cyclic-lookup-stream')
       if res is not None:
         ctx.violation(res[0], res[1], {'history': copy.deepcopy(done), 'bundle': copy.deepcopy(b)})
